@@ -591,19 +591,21 @@ class Linker:
 
         # Update layout of section in images
         for image in self.dst.images:
+            # Space freed in front of the current section:
             delta = 0
             for section in image.sections:
+                # Move the section down by the largest multiple of its
+                # alignment that fits into the freed space, such that the
+                # section remains properly aligned.
+                move = delta - (delta % section.alignment)
                 self.logger.debug(
-                    "sectororchanging %s at %08x with -%08x to %08x",
+                    "section changing %s at %08x with -%08x",
                     section.name,
                     section.address,
-                    delta,
+                    move,
                 )
-                # TODO: tricky stuff might go wrong here with alignment
-                # requirements of sections.
-                # Idea: re-do the layout phase?
-                section.address -= delta
-                delta += section_changes[section.name]
+                section.address -= move
+                delta = move + section_changes[section.name]
 
     def do_relocations(self):
         """Perform the correct relocation as listed"""
